@@ -21,21 +21,23 @@
    view k (of v if w = 0, of [v, {"k": v}] if w = 1) the first differing line
    index and the first 160 characters of the model's line there (() if the model
    has none).
-   PPC = the same with the configuration of the call spelled out (C11/Palette.v: how
+   PPC = the same with the configurations of the call spelled out (C11/Palette.v: how
    palette= / no_color= / colors_conf= were given and whether the global colours
-   configuration is a no_color one).  The model decides from the configuration whether
-   the palette is plain: if so every view must again be gen_lines m v -- the lines do
-   not depend on HOW the no-colour output was asked for; (2) = the model allows
-   colours for this configuration (nothing demanded; the generator never produces
-   such a case, so (2) is a disagreement between generator and model), (3) = the
-   model rejects the call (ready palette object + colors_conf).  PP = PPC cfg_default. *)
+   configuration is a no_color one); the views are those of ALL the listed
+   configurations (one value rendered under one configuration after the other).  The
+   model decides from each configuration whether the palette is plain: if all are,
+   every view must again be gen_lines m v -- the lines do not depend on HOW the
+   no-colour output was asked for; (2 i) = the model allows colours for configuration i
+   (nothing demanded; the generator never produces such a case, so this is a
+   disagreement between generator and model), (3 i) = the model rejects the call
+   (ready palette object + colors_conf).  PP = PPC [cfg_default]. *)
 From Coq Require Import ZArith List Bool.
 From AK Require Export Common.Sx Common.Err C11.Model C11.Palette.
 Import ListNotations.
 
 Inductive case :=
 | PP (m : mode) (v : value) (views : list (list (list Z))) (wviews : list (list (list Z)))
-| PPC (m : mode) (v : value) (c : cfg) (views : list (list (list Z))) (wviews : list (list (list Z))).
+| PPC (m : mode) (v : value) (cs : list cfg) (views : list (list (list Z))) (wviews : list (list (list Z))).
 
 Fixpoint str_eqb (a b : list Z) : bool :=
   match a, b with
@@ -86,13 +88,24 @@ Definition compare (m : mode) (v : value) (views wviews : list (list (list Z))) 
           end
       end.
 
+(* first configuration whose palette is not plain: (2, index) colours allowed, (3, index) call rejected *)
+Fixpoint first_not_plain (cs : list cfg) (i : Z) : option (Z * Z) :=
+  match cs with
+  | [] => None
+  | c :: cs' =>
+      match mk_palette_plain c with
+      | Some true => first_not_plain cs' (i + 1)%Z
+      | Some false => Some (2%Z, i)
+      | None => Some (3%Z, i)
+      end
+  end.
+
 Definition run (c : case) : sx :=
   match c with
   | PP m v views wviews => compare m v views wviews
-  | PPC m v c views wviews =>
-      match mk_palette_plain c with
-      | Some true => compare m v views wviews
-      | Some false => SL [SZ 2]
-      | None => SL [SZ 3]
+  | PPC m v cs views wviews =>
+      match first_not_plain cs 0%Z with
+      | Some (code, i) => SL [SZ code; SZ i]
+      | None => compare m v views wviews
       end
   end.
